@@ -31,7 +31,11 @@ Inductive wout :=
 | WFail                      (* business error or failing statement inside forgeLog's (sub)transaction *)
 | WFailEarly                 (* error before forgeLog opens its (sub)transaction: a statement outside it fails
                                 (plain context: nothing was begun; first write: the prelude of handleState fails) *)
-| WHit (id : Z).             (* fetchLogWithIK finds log [id] with the same input: replay *)
+| WHit (id : Z)              (* fetchLogWithIK finds log [id] with the same input: replay *)
+| WCancel (logged : bool).   (* the request context is cancelled while a statement of the write (or of the prelude of
+                                handleState) runs; [logged]: that statement was InsertLog and it had executed.  The
+                                statement returns context.Canceled; database/sql's awaitDone goroutine rolls the
+                                TOP-LEVEL transaction back; every later store call of the request fails without SQL. *)
 Record write := { w_dry : bool; w_out : wout }.
 
 Inductive wres := RsOk (id : Z) (hit : bool) | RsErr.
@@ -41,38 +45,63 @@ Definition res_ok (r : wres) : bool := match r with RsOk _ _ => true | RsErr => 
 Record mst := {
   initializing : bool;       (* controllerFacade.ledger.State = "initializing" (cached in the facade) *)
   next_log : Z;              (* per-ledger log id sequence: drawn by InsertLog, never rolled back *)
-  cfail : option nat         (* fault switch: the (n+1)-th top-level COMMIT from now fails *)
+  cfail : option nat;        (* fault switch: the (n+1)-th top-level COMMIT from now fails *)
+  ccancel : option nat;      (* fault switch: the request context is cancelled right before the (n+1)-th top-level COMMIT
+                                from now, and the rollback by database/sql has completed: Tx.Commit returns sql.ErrTxDone *)
+  cancelled : bool           (* the context of the current request is cancelled *)
 }.
-Definition with_next (s : mst) (n : Z) := {| initializing := initializing s; next_log := n; cfail := cfail s |}.
-Definition with_cfail (s : mst) (c : option nat) := {| initializing := initializing s; next_log := next_log s; cfail := c |}.
-Definition set_in_use (s : mst) := {| initializing := false; next_log := next_log s; cfail := cfail s |}.
+Definition with_next (s : mst) (n : Z) :=
+  {| initializing := initializing s; next_log := n; cfail := cfail s; ccancel := ccancel s; cancelled := cancelled s |}.
+Definition with_cfail (s : mst) (c : option nat) :=
+  {| initializing := initializing s; next_log := next_log s; cfail := c; ccancel := ccancel s; cancelled := cancelled s |}.
+Definition with_ccancel (s : mst) (c : option nat) :=
+  {| initializing := initializing s; next_log := next_log s; cfail := cfail s; ccancel := c; cancelled := cancelled s |}.
+Definition with_cancelled (s : mst) (b : bool) :=
+  {| initializing := initializing s; next_log := next_log s; cfail := cfail s; ccancel := ccancel s; cancelled := b |}.
+Definition set_in_use (s : mst) :=
+  {| initializing := false; next_log := next_log s; cfail := cfail s; ccancel := ccancel s; cancelled := cancelled s |}.
 
-(* driver-level COMMIT of a top-level transaction *)
-Definition sql_commit (s : mst) : mst * bool :=
-  match cfail s with
-  | Some O => (with_cfail s None, false)
-  | Some (S n) => (with_cfail s (Some n), true)
-  | None => (s, true)
+(* COMMIT of a top-level transaction (bun.Tx.Commit -> sql.Tx.Commit -> driver) *)
+Inductive cres := COk | CFail | CCancelled.
+Definition sql_commit (s : mst) : mst * cres :=
+  match ccancel s with
+  | Some O => (with_cancelled (with_ccancel s None) true, CCancelled)     (* no driver COMMIT: the transaction is already rolled back *)
+  | cc =>
+    let s0 := with_ccancel s (match cc with Some (S n) => Some n | _ => None end) in
+    match cfail s0 with
+    | Some O => (with_cfail s0 None, CFail)
+    | Some (S n) => (with_cfail s0 (Some n), COk)
+    | None => (s0, COk)
+    end
   end.
+Definition commit_acts (c : cres) : list act :=
+  match c with COk => [SqlCommitOk] | CFail => [SqlCommitFail] | CCancelled => [SqlRollback] end.
 
 (* ---------- logProcessor.forgeLog on a store whose db is a *bun.DB (in_tx = false) or a bun.Tx (in_tx = true) ----------
    store.BeginTX: BEGIN on a DB, SAVEPOINT on a Tx; txStore.Commit: COMMIT resp. RELEASE SAVEPOINT (cannot be failed
-   by the COMMIT switch); txStore.Rollback: ROLLBACK resp. ROLLBACK TO SAVEPOINT. *)
+   by the COMMIT switches); txStore.Rollback: ROLLBACK resp. ROLLBACK TO SAVEPOINT.  With a cancelled context BeginTX
+   fails before any SQL. *)
 Definition forge_log (in_tx : bool) (s : mst) (w : write) : mst * list act * wres :=
   let b := if in_tx then [] else [SqlBegin] in
   let rb := if in_tx then [] else [SqlRollback] in
+  if cancelled s then (s, [], RsErr) else
   match w_out w with
   | WFailEarly => (s, [], RsErr)
   | WHit id => (s, b ++ rb, RsOk id true)                    (* rollback of the lookup transaction, idempotencyHit = true *)
   | WFail => (s, b ++ rb, RsErr)
+  | WCancel logged =>
+    (* the top-level transaction (forgeLog's own, or the enclosing one) is rolled back by database/sql *)
+    let id := next_log s in
+    let s1 := with_cancelled (if logged then with_next s (id + 1) else s) true in
+    (s1, b ++ (if logged then [LogAppended id] else []) ++ [SqlRollback], RsErr)
   | WOk =>
     let id := next_log s in
     let s1 := with_next s (id + 1) in
     if w_dry w then (s1, b ++ [LogAppended id] ++ rb, RsOk id false)
     else if in_tx then (s1, [LogAppended id], RsOk id false)
-    else let '(s2, ok) := sql_commit s1 in
-         if ok then (s2, [SqlBegin; LogAppended id; SqlCommitOk], RsOk id false)
-         else (s2, [SqlBegin; LogAppended id; SqlCommitFail], RsErr)       (* "failed to commit transaction" *)
+    else let '(s2, c) := sql_commit s1 in
+         (s2, [SqlBegin; LogAppended id] ++ commit_acts c,
+          match c with COk => RsOk id false | _ => RsErr end)            (* "failed to commit transaction" *)
   end.
 
 (* ---------- ControllerWithEvents ----------
@@ -111,8 +140,14 @@ Definition ev_write (stk : list frame) (in_tx : bool) (s : mst) (w : write) : ms
 (* ControllerWithEvents.Commit on the object returned by BeginTX (a top-level transaction in every flow below:
    the controller-level BeginTX is only ever called on a root object): underlying Commit, then run atCommit in order *)
 Definition ctrl_commit (s : mst) (f : frame) : mst * list act * bool :=
-  let '(s1, ok) := sql_commit s in
-  if ok then (s1, SqlCommitOk :: map Publish (snd f), true) else (s1, [SqlCommitFail], false).
+  let '(s1, c) := sql_commit s in
+  match c with
+  | COk => (s1, SqlCommitOk :: map Publish (snd f), true)
+  | _ => (s1, commit_acts c, false)
+  end.
+(* ControllerWithEvents.Rollback (deferred or explicit) on the BeginTX object: nothing reaches the driver when the
+   transaction has already been rolled back because the context was cancelled *)
+Definition ctrl_rollback (s : mst) : list act := if cancelled s then [] else [SqlRollback].
 
 (* BeginTX returns {parent: c, hasTx: true}; LockLedger returns {parent: c, hasTx: c.hasTx}.
    [pf] ("pre-fix") = true selects the HISTORICAL behaviour before the repair of finding KF-C31-first-write-event-before-commit
@@ -130,6 +165,7 @@ Definition lock_frame (pf : bool) (parent : frame) : frame := (negb pf && fst pa
 Definition facade_write (pf : bool) (s : mst) (w : write) : mst * list act * wres :=
   if negb (initializing s) then
     let '(s1, _, tr, r) := ev_write [root] false s w in (s1, tr, r)
+  else if cancelled s then (s, [], RsErr)                                  (* c.BeginTX fails *)
   else
     match w_out w with
     | WFailEarly => (s, [SqlBegin; SqlRollback], RsErr)
@@ -138,22 +174,24 @@ Definition facade_write (pf : bool) (s : mst) (w : write) : mst * list act * wre
       let '(s1, stk, tr, r) := ev_write [lock_frame pf txf; txf; root] true s w in
       let txf' := nth 1 stk txf in
       match r with
-      | RsErr => (s1, SqlBegin :: tr ++ [SqlRollback], RsErr)
+      | RsErr => (s1, SqlBegin :: tr ++ ctrl_rollback s1, RsErr)
       | RsOk _ _ =>
-        if w_dry w then (s1, SqlBegin :: tr ++ [SqlRollback], r)
+        if w_dry w then (s1, SqlBegin :: tr ++ ctrl_rollback s1, r)
         else let '(s2, ctr, ok) := ctrl_commit s1 txf' in
              if ok then (set_in_use s2, SqlBegin :: tr ++ ctr, r)
              else (s2, SqlBegin :: tr ++ ctr, RsErr)                       (* "failed to commit transaction" *)
       end
     end.
 
-(* ---------- Bulker.run with parallelism 1: hasError && !continueOnFailure => context.Canceled, element not processed ---------- *)
+(* ---------- Bulker.run with parallelism 1 ----------
+   a task first selects on ctx.Done() (=> result {Error: ctx.Err()}, element not processed, hasError untouched), then
+   hasError && !continueOnFailure => context.Canceled, element not processed *)
 Fixpoint bulk_atomic_elems (cont : bool) (stk : list frame) (s : mst) (err : bool) (ws : list write)
   : mst * list frame * list act * bool :=
   match ws with
   | [] => (s, stk, [], err)
   | w :: r =>
-    if err && negb cont then bulk_atomic_elems cont stk s err r
+    if cancelled s || (err && negb cont) then bulk_atomic_elems cont stk s err r
     else let '(s1, stk1, tr, x) := ev_write stk true s {| w_dry := false; w_out := w_out w |} in
          let '(s2, stk2, tr2, err2) := bulk_atomic_elems cont stk1 s1 (err || negb (res_ok x)) r in
          (s2, stk2, tr ++ tr2, err2)
@@ -163,7 +201,7 @@ Fixpoint bulk_plain_elems (pf cont : bool) (s : mst) (err : bool) (ws : list wri
   match ws with
   | [] => (s, [], err)
   | w :: r =>
-    if err && negb cont then bulk_plain_elems pf cont s err r
+    if cancelled s || (err && negb cont) then bulk_plain_elems pf cont s err r
     else let '(s1, tr, x) := facade_write pf s {| w_dry := false; w_out := w_out w |} in
          let '(s2, tr2, err2) := bulk_plain_elems pf cont s1 (err || negb (res_ok x)) r in
          (s2, tr ++ tr2, err2)
@@ -174,7 +212,7 @@ Fixpoint bulk_plain_elems (pf cont : bool) (s : mst) (err : bool) (ws : list wri
 Definition bulk (pf atomic cont : bool) (s : mst) (ws : list write) : mst * list act :=
   if atomic then
     let '(s1, stk, tr, err) := bulk_atomic_elems cont [begin_frame; root] s false ws in
-    if err then (s1, SqlBegin :: tr ++ [SqlRollback])
+    if err then (s1, SqlBegin :: tr ++ ctrl_rollback s1)
     else let '(s2, ctr, _) := ctrl_commit s1 (nth 0 stk begin_frame) in (s2, SqlBegin :: tr ++ ctr)
   else let '(s1, tr, _) := bulk_plain_elems pf cont s false ws in (s1, tr).
 
@@ -183,14 +221,17 @@ Inductive eop :=
 | OWrite (w : write)
 | OBulk (atomic cont : bool) (ws : list write)
 | OFailCommit (n : nat)       (* harness: arm the COMMIT fault switch *)
-| ODisarm.                    (* harness: switch off *)
+| OCancelCommit (n : nat)     (* harness: arm the cancel-before-COMMIT switch *)
+| ODisarm.                    (* harness: switches off *)
 
+(* every request runs under its own context *)
 Definition eop_run (pf : bool) (s : mst) (o : eop) : mst * list act :=
   match o with
-  | OWrite w => let '(s1, tr, _) := facade_write pf s w in (s1, tr)
-  | OBulk a c ws => bulk pf a c s ws
+  | OWrite w => let '(s1, tr, _) := facade_write pf (with_cancelled s false) w in (s1, tr)
+  | OBulk a c ws => bulk pf a c (with_cancelled s false) ws
   | OFailCommit n => (with_cfail s (Some n), [])
-  | ODisarm => (with_cfail s None, [])
+  | OCancelCommit n => (with_ccancel s (Some n), [])
+  | ODisarm => (with_ccancel (with_cfail s None) None, [])
   end.
 
 Fixpoint run_ops (pf : bool) (s : mst) (ops : list eop) : mst * list act :=
@@ -199,12 +240,13 @@ Fixpoint run_ops (pf : bool) (s : mst) (ops : list eop) : mst * list act :=
   | o :: r => let '(s1, tr) := eop_run pf s o in let '(s2, tr2) := run_ops pf s1 r in (s2, tr ++ tr2)
   end.
 
-Definition fresh (init : bool) : mst := {| initializing := init; next_log := 1; cfail := None |}.
+Definition start (init : bool) (n : Z) : mst := {| initializing := init; next_log := n; cfail := None; ccancel := None; cancelled := false |}.
+Definition fresh (init : bool) : mst := start init 1.
 (* the model of the code *)
 Definition trace_of (init : bool) (ops : list eop) : list act := snd (run_ops false (fresh init) ops).
 (* same, on a ledger whose log sequence stands at [n] (the harness prepares in-use ledgers with a few writes) *)
 Definition trace_from (init : bool) (n : Z) (ops : list eop) : list act :=
-  snd (run_ops false {| initializing := init; next_log := n; cfail := None |} ops).
+  snd (run_ops false (start init n) ops).
 (* historical variant (before the LockLedger repair); no longer tied to the code *)
 Definition trace_pre_fix (init : bool) (ops : list eop) : list act := snd (run_ops true (fresh init) ops).
 
@@ -254,24 +296,26 @@ Definition check (tr : list act) : verdict :=
 (* hypotheses of the partial theorem *)
 Definition write_no_hit (w : write) : bool := match w_out w with WHit _ => false | _ => true end.
 Definition eop_no_hit (o : eop) : bool :=
-  match o with OWrite w => write_no_hit w | OBulk _ _ ws => forallb write_no_hit ws | OFailCommit _ | ODisarm => true end.
+  match o with OWrite w => write_no_hit w | OBulk _ _ ws => forallb write_no_hit ws | OFailCommit _ | OCancelCommit _ | ODisarm => true end.
 
 (* ---------- the scenario grid of the property's quantifier ----------
    context x outcome, on a ledger already in use unless the context says otherwise; in the bulk contexts the write
    under test is the middle element of [ok; w; ok] (processElement never passes DryRun, so dry-run is a single-call outcome
    only: in a bulk context ODry denotes the business failure of the element with continueOnFailure set). *)
 Inductive sctx := CSingle | CFirstWrite | CAtomicBulk | CPlainBulk | CAtomicBulkInit | CPlainBulkInit.
-Inductive sout := SOk | SFail | SDry | SCommitFail.
+Inductive sout := SOk | SFail | SDry | SCommitFail | SCancelCommit | SCancelStmt.
 
 Definition wok : write := {| w_dry := false; w_out := WOk |}.
 Definition scenario_write (o : sout) : write :=
   match o with
-  | SOk | SCommitFail => wok
+  | SOk | SCommitFail | SCancelCommit => wok
+  | SCancelStmt => {| w_dry := false; w_out := WCancel true |}
   | SFail => {| w_dry := false; w_out := WFail |}
   | SDry => {| w_dry := true; w_out := WOk |}
   end.
 Definition scenario (c : sctx) (o : sout) : bool * list eop :=
-  let arm := match o with SCommitFail => [OFailCommit (match c with CPlainBulk | CPlainBulkInit => 1%nat | _ => 0%nat end)] | _ => [] end in
+  let pos := match c with CPlainBulk | CPlainBulkInit => 1%nat | _ => 0%nat end in
+  let arm := match o with SCommitFail => [OFailCommit pos] | SCancelCommit => [OCancelCommit pos] | _ => [] end in
   let bulk_ws := match o with
                  | SDry => [wok; {| w_dry := false; w_out := WFail |}; wok]
                  | _ => [wok; scenario_write o; wok] end in
@@ -293,7 +337,7 @@ Definition scenario_trace_pre_fix (c : sctx) (o : sout) : list act :=
    when a write SUCCEEDED through the first-write path of handleState (LockLedger object had hasTx = false) *)
 Definition scenario_expected_pre_fix (c : sctx) (o : sout) : verdict :=
   match c, o with
-  | CFirstWrite, SOk | CFirstWrite, SCommitFail => VBeforeCommit 1
-  | CPlainBulkInit, (SOk | SFail | SDry | SCommitFail) => VBeforeCommit 1
+  | CFirstWrite, (SOk | SCommitFail | SCancelCommit) => VBeforeCommit 1
+  | CPlainBulkInit, _ => VBeforeCommit 1
   | _, _ => VOk
   end.
